@@ -1,13 +1,64 @@
-(* C03/Proofs.v — placeholder while the pipeline is wired; the invariant proofs live in Inv*.v *)
+(* C03/Proofs.v — witnesses computed on the model (the general proofs are in Tree.v, Cache.v,
+   Frame.v, Ops.v, Spec.v, Insert.v, Delete.v, View.v, Inv.v, Mutate.v, Main.v). *)
 From Common Require Import Bytes Blake2b.
-From C03 Require Import Model.
+From C03 Require Import Model Gen.
+
+(* constants read from the Go source on every run (props/C03/consts.json) *)
+Example gen_v1_max_inline : Gen.v1_max_inline_value_size = 32%Z.
+Proof. reflexivity. Qed.
+Example gen_children_capacity : Gen.children_capacity = Z.of_nat (length no_kids).
+Proof. reflexivity. Qed.
+Example must_hash_threshold : forall v,
+  must_hash true v = (Z.to_nat Gen.v1_max_inline_value_size <? length v)%nat.
+Proof. reflexivity. Qed.
 
 Definition k12 : list byte := [n2b 18].
+Definition k1234 : list byte := [n2b 18; n2b 52].
 Definition v40 : list byte := repeat (n2b 176) 40.
+Definition v3 : list byte := [n2b 1; n2b 2; n2b 3].
+
+(* the pinned code (fx = false): V0 trie with a 40-byte value, Snapshot, SetVersion(V1) on the
+   snapshot, re-Put of the same value: the ORIGINAL handle's view changes *)
 Definition bad_hist : list step := [Put 0 k12 v40; Snap 0; SetVer 1 true; Put 1 k12 v40].
 
 Lemma version_upgrade_refuted :
   frozen_parents bad_hist = true /\
   view blake2b_256 false (run blake2b_256 false false bad_hist init_state) 0
     <> view blake2b_256 false (run blake2b_256 false false (firstn 3 bad_hist) init_state) 0.
+Proof. vm_compute. split; [reflexivity | intro E; discriminate E]. Qed.
+
+(* the same history on the repaired code leaves the original alone, and the snapshot does change *)
+Lemma version_upgrade_repaired :
+  view blake2b_256 false (run blake2b_256 true false bad_hist init_state) 0
+    = view blake2b_256 false (run blake2b_256 true false (firstn 3 bad_hist) init_state) 0
+  /\ view blake2b_256 false (run blake2b_256 true false bad_hist init_state) 1
+    <> view blake2b_256 false (run blake2b_256 true false (firstn 3 bad_hist) init_state) 1.
+Proof. vm_compute. split; [reflexivity | intro E; discriminate E]. Qed.
+
+(* a fork history with snapshots of snapshots, a version upgrade, deletions and WriteDirty that
+   satisfies the hypothesis of the isolation theorem and in which the handles really diverge *)
+Definition fork_hist : list step :=
+  [Put 0 k12 v40; Put 0 k1234 v3; Commit 0; Snap 0; Snap 0; SetVer 1 true; Put 1 k12 v40;
+   Del 2 k1234; Snap 1; Put 3 k1234 v40; Commit 3; Clear 2 k12; HashOp 0].
+
+Lemma fork_hist_nonvacuous :
+  frozen_parents fork_hist = true
+  /\ length (s_hs (run blake2b_256 true false fork_hist init_state)) = 4
+  /\ (let st := run blake2b_256 true false fork_hist init_state in
+      view blake2b_256 false st 0 <> view blake2b_256 false st 1
+      /\ view blake2b_256 false st 1 <> view blake2b_256 false st 2
+      /\ view blake2b_256 false st 1 <> view blake2b_256 false st 3
+      /\ view blake2b_256 false st 0 <> None).
+Proof.
+  vm_compute. repeat split; try reflexivity; intro E; discriminate E.
+Qed.
+
+(* informational: mutating a handle AFTER a snapshot was taken from it is visible through the
+   snapshot (the nodes of the parent's generation are shared and rewritten in place): this is the
+   documented copy-on-write contract, excluded by frozen_parents *)
+Definition parent_hist : list step := [Put 0 k12 v3; Snap 0; Put 0 k12 v40].
+Lemma parent_mutation_shares :
+  frozen_parents parent_hist = false /\
+  view blake2b_256 false (run blake2b_256 true false parent_hist init_state) 1
+    <> view blake2b_256 false (run blake2b_256 true false (firstn 2 parent_hist) init_state) 1.
 Proof. vm_compute. split; [reflexivity | intro E; discriminate E]. Qed.
